@@ -39,7 +39,7 @@ ASSUMPTIONS = [
 ]
 BUDGET = {"quick": 25000, "thorough": 800000}
 MIN_LABEL_FRACTION = {"set": 0.25, "set:3-formats": 0.05, "pools": 0.2, "pools:meet-on-node": 0.05,
-                      "pools:shared-did": 0.03, "pools:conflict": 0.005, "model:single": 0.05,
+                      "pools:shared-did": 0.03, "pools:single-listed-first": 0.02, "pools:conflict": 0.005, "model:single": 0.05,
                       "model:annotate": 0.05, "model:overlap-reject": 0.01, "model:with-pool": 0.04}
 
 CAP_FIELDS = ['cpu', 'core', 'ram', 'disk', 'bw', 'burst_size', 'unit', 'mtu']
@@ -180,7 +180,8 @@ def _pools_case(draw):
     order = draw(st.permutations(list(range(n))))
     singles = []
     for _ in range(draw(st.integers(0, 2))):
-        singles.append({"node": draw(st.integers(0, n + 1)), "did": draw(_IDTXT), "details": draw(_details(atype))})
+        singles.append({"node": draw(st.integers(0, n + 1)), "did": draw(_IDTXT), "details": draw(_details(atype)),
+                        "first": draw(st.booleans())})
     return {"kind": "pools", "atype": atype, "pools": pools, "order": list(order),
             "via_json": draw(st.booleans()), "singles": singles}
 
@@ -601,7 +602,16 @@ def _run_pools(case):
             continue
         sd = Delegation(atype=DelegationType[atype], delegation_id=s["did"], aformat=DelegationFormat.SinglePool)
         sd.set_details(_mk_details(atype, s["details"]))
-        ds.add_delegations(sd)
+        if s.get("first") and ds.get_delegation_ids():
+            # the single-resource entry listed BEFORE the pool entries of the node (dict / JSON order)
+            reordered = Delegations(atype=DelegationType[atype])
+            reordered.add_delegations(sd)
+            for d in list(ds.delegations.values()):
+                reordered.add_delegations(d)
+            ds = per_node[n] = reordered
+            labels.append("pools:single-listed-first") if "pools:single-listed-first" not in labels else None
+        else:
+            ds.add_delegations(sd)
         labels.append("pools:with-singles") if "pools:with-singles" not in labels else None
     seq = [name(i) for i in case["order"]] + sorted(per_node)
     ps2 = Pools(atype=DelegationType[atype])
